@@ -76,6 +76,21 @@ fn scenarios(thorough: bool) -> Vec<Scenario> {
                 s.horizon = 24;
                 s.probe = 30;
                 s.checks = CK_CORE;
+                // the same API calls include the checksums the game hands over: a game that
+                // diverges identically in both runs must produce identical DesyncDetected streams
+                if desync > 0 && s.peers.len() >= 3 {
+                    let mut x = s.clone();
+                    x.diverge = Some((0, 4));
+                    x.checks = CK_C02 | CK_C03 | CK_C04;
+                    x.name = format!("{} node 0 diverges from frame 4", x.name);
+                    v.push(x);
+                    let mut y = s.clone();
+                    y.diverge = Some((1, 9));
+                    y.peers.iter_mut().for_each(|p| p.desync = 1);
+                    y.checks = CK_C02 | CK_C03 | CK_C04;
+                    y.name = format!("{} node 1 diverges from frame 9 interval=1", y.name);
+                    v.push(y);
+                }
                 v.push(s);
             }
         }
